@@ -49,6 +49,15 @@ def run(ctx):
             first = False
         ctx.extra.setdefault("graphs", []).append(dict(cfg=cfg, nodes=summ["graph_nodes"], edges=summ["graph_edges"],
                                                        behaviours_replayed=summ["behaviours"], steps_on_real_code=summ["steps"], accepted=ok))
+    # ---- the caches on their own against the sorted-multimap model
+    for name, maxlen in (("blocks", 12), ("confirms", 12), ("orders", 8)):
+        dot = ctx.path("synccache_%s.dot" % name)
+        ctx.tlc_exhaustive("MCSyncCache", "MCSyncCache_%s.cfg" % name, timeout=900, dump=dot)
+        files, summ = ctx.replay("synccache", graph=dot, shards=4, maxlen=maxlen, name="synccache_" + name, timeout=900)
+        ok = ctx.validate("TraceSyncCache", "TraceSyncCache.cfg", files, what="BlockCache/ConfirmCache, %s graph" % name, timeout=1800)
+        ctx.extra.setdefault("graphs", []).append(dict(cfg="MCSyncCache_%s.cfg" % name, nodes=summ["graph_nodes"], edges=summ["graph_edges"],
+                                                       behaviours_replayed=summ["behaviours"], steps_on_real_code=summ["steps"], accepted=ok))
+    negative(ctx, "MCSyncCache", "MCSyncCache_neg.cfg", "Refines")
     ctx.cov["exhaustive"] = True
     # ---- negative controls: with a deviation switched on, the design violates the clause it belongs to
     negative(ctx, "MCSync", "MCSync_negSorted.cfg", "CacheSorted")
